@@ -18,7 +18,10 @@ Tie:
     partitions with committed offsets led by different brokers, one leader unknown at assignment
     and appearing while the (delayed) OffsetFetch of the other partition is in flight — on a grid
     across the flight and at 1-ms steps around the arrival of its reply; both must get their
-    committed offsets within 15 virtual seconds.
+    committed offsets within 15 virtual seconds; and replaced assignments of a consumer WITHOUT
+    group_id (cons_sim.c13re_plans): `assign()` a second and third time with another / larger / the
+    same set, or a subscribed topic that grows — every partition of every new assignment must get
+    log start / log end / NoOffsetForPartition within 10 virtual seconds and deliver.
 Search: the property on observations (`c13 holds`: Lean `holdsC13`) for every trace, plus an
 independent table of the expected start for the runs without a seek.
 """
@@ -316,6 +319,45 @@ def run(ctx):
             ctx.violation("c13:wrong-start", f"consumption must start at the committed offsets {cs.LAG_COMMITTED}; positions "
                           f"{out['positions']}; case {plan}", {"cases": [plan], "observations": out["obs13"]})
     sim_hist["staggered_lookup_failures"] = lag_bad
+    # ---- a consumer without group_id whose assignment is replaced (assign() again / subscribed topic grows)
+    if ctx.replay_cases is not None:
+        re_plans = [c for c in ctx.replay_cases if c.get("kind") == "c13re"]
+    else:
+        re_plans = cs.c13re_plans(ctx.thorough)
+    re_bad = 0
+    for plan in re_plans:
+        out = cs.c13re_trace(env, plan)
+        pol = cs.POLICY[plan["policy"]]
+        for key, evs in out["events"].items():
+            lines.append(cc.acc_line(guarded, pol, evs)); where.append(("acc", len(meta)))
+            meta.append({"case": plan, "obs": [], "out": out})
+        for part, obs in out["obs13"].items():
+            lines.append(obs13_line(None, pol, obs)); where.append(("holds", len(meta)))
+            meta.append({"case": plan, "obs": obs, "out": out})
+        sim_hist["reassignment_runs"] = sim_hist.get("reassignment_runs", 0) + 1
+        ctx.count(("re", repr(sorted((k, repr(v)) for k, v in plan.items()))), nontrivial=True)
+        ctx.coverage["traces_validated_against_impl"] += 1
+        if out["outcome"] != "ok":
+            re_bad += 1
+            ctx.violation("c13:hang", f"{out.get('where', '')[:300]}; case {plan}", {"cases": [plan]})
+            continue
+        if out["failures"]:
+            re_bad += 1
+            f0 = out["failures"][0]
+            if f0.get("position", 0) is None and "partition" in f0:
+                sig = "c13:never-positioned"
+            elif "re-assigned" in f0["why"]:
+                sig = "c13:not-reassigned"
+            elif "delivered" in f0["why"] or "reach the caller" in f0["why"]:
+                sig = "c13:not-delivered"
+            else:
+                sig = "c13:wrong-start"
+            ctx.violation(
+                sig, f"group-less consumer ({plan['mode']}, auto_offset_reset={plan['policy']}), assignment #{f0['step'] + 1} of "
+                f"{plan['steps']}: {f0['why']} within {plan['bound']} virtual seconds — {out['failures'][:3]}; observations {out['obs13']}",
+                {"cases": [plan], "failures": out["failures"], "observations": out["obs13"]})
+    sim_hist["reassignment_failures"] = re_bad
+    lag_bad += re_bad
     ctx.coverage["sim_c13"] = sim_hist
     ctx.log(f"simulator runs done: {sim_hist}")
     res = ctx.driver("akdriver", lines)
@@ -326,7 +368,8 @@ def run(ctx):
         "group-less) with ListOffsets pinned to one version, lookup faults, and a seek(22) (for a third of the "
         "configurations also seek_to_beginning / seek_to_end) at every simulator event index of the window; staggered "
         "lookups: two partitions with committed offsets 5 / 7 led by different brokers, one leader unknown at assignment "
-        "and appearing on a grid across (and at 1-ms steps around the end of) the flight of a delayed OffsetFetch; every run "
+        "and appearing on a grid across (and at 1-ms steps around the end of) the flight of a delayed OffsetFetch; "
+        "group-less consumers whose assignment is replaced twice (assign again / subscribed topic grows) × 3 policies; every run "
         "counts as non-trivial; distinct by canonical plan text")
     for m in ((meta[0], meta[len(meta) // 2], meta[-1]) if meta else ()):
         ctx.sample({"case": {k: v for k, v in m["case"].items() if k not in ("ops",)} if m["case"].get("kind") == "c13" else m["case"],
